@@ -80,6 +80,10 @@ func c13Run(c *core.Ctx, idx int) {
 	}
 	s := NewStack(kind, capacity)
 	m := &ListModel{Cap: capacity}
+	if r.Chance(1, 3) {
+		s.SetFIFO(true)
+		m.Fifo = true
+	}
 	bit := false
 	var log []string
 	fail := func(key, msg string) {
@@ -155,9 +159,29 @@ func c13Run(c *core.Ctx, idx int) {
 					c.Count("stack-values-offered-while-clear")
 				}
 			}
+			offered := append([]any{}, batch...)
 			s.Push(batch...)
 			log = append(log, "Push("+strings.Join(ds, ",")+")")
 			c.Count("push-batches")
+			// the batch is the caller's: skipping a value does not mean rewriting the slice it came in
+			for i := range batch {
+				if !SameValue(batch[i], offered[i]) {
+					fail("caller-batch-rewritten", fmt.Sprintf("after Push(batch...) position %d of the caller's slice holds %s, it was %s", i, Show(batch[i]), Show(offered[i])))
+					return
+				}
+			}
+		}
+		if r.Chance(1, 6) && m.Len() > 0 {
+			// taking an element out (LIFO or FIFO) says nothing about the elements that stay - nested Stacks that were
+			// accepted earlier included, whatever the option is now
+			gv, gok := s.Pop()
+			wv, wok := m.Pop()
+			log = append(log, "Pop()")
+			if gok != wok || !SameValue(gv, wv) {
+				fail("Pop", fmt.Sprintf("Pop()=(%s,%v), model (%s,%v)", Show(gv), gok, Show(wv), wok))
+				return
+			}
+			c.Count("pops")
 		}
 		if !observe() {
 			return
